@@ -378,6 +378,7 @@ type conv struct {
 	exit     int  // exit status of the plugin process when it finishes normally
 	onInt    int  // >0: the plugin handles the client's interrupt and exits with this status
 	deaf     bool // the plugin closes its standard input after phase 1: no reply can be delivered
+	slowBody bool // with timer: the 5.6 s pause lies INSIDE the first message, after its first line
 	stz      int  // which stanza list the identity machine is handed (index into stanzaSets)
 	id       int
 }
@@ -641,6 +642,16 @@ func main() {
 		}
 		convs = append(convs, &conv{machine: mach, ui: uiCfg{1, 1, 1, 0}, msgs: []msg{m, terminals[0]}, timer: true, id: len(convs)})
 	}
+	// the same silence INSIDE a message (first line sent, body 5.6 s later: a
+	// plugin waiting for a touch after it has started to answer)
+	for i := 0; i < 2; i++ {
+		m := recipientAlphabet()[0]
+		mach := recipientMachine
+		if i%2 == 1 {
+			m, mach = identityAlphabet()[0], identityMachine
+		}
+		convs = append(convs, &conv{machine: mach, ui: uiCfg{1, 1, 1, 0}, msgs: []msg{m, terminals[0]}, timer: true, slowBody: true, id: len(convs)})
+	}
 	r.Set("request_answers_in_alphabet", len(answers))
 	r.Set("conversations_answer_x_request_message", answerConvs)
 	if answerConvs == 0 {
@@ -774,7 +785,11 @@ func runConvOn(r *mon.Run, env *plug.Env, name string, c *conv, cache *uiCache) 
 		default:
 			st := plug.Step{Send: m.raw, Bytewise: c.bytewise}
 			if c.timer && i == 0 {
-				st.DelayMs = 5600
+				if c.slowBody {
+					st.SplitAt, st.SplitDelayMs = bytes.IndexByte(m.raw, '\n')+1, 5600
+				} else {
+					st.DelayMs = 5600
+				}
 			}
 			sc.Steps = append(sc.Steps, st)
 		}
@@ -1011,8 +1026,13 @@ func runConvOn(r *mon.Run, env *plug.Env, name string, c *conv, cache *uiCache) 
 	}
 	if c.timer {
 		r.Count("waittimer_conversations", 1)
-		if waits == 0 {
+		if waits == 0 && !c.slowBody {
+			// (a pause inside a message: whether the timer fires is recorded only)
 			viol("waittimer-not-fired", "5.6 s of plugin silence did not trigger WaitTimer")
+		}
+		if c.slowBody {
+			r.Count("conversations_with_a_pause_inside_a_message", 1)
+			r.Tab("waittimer_during_a_pause_inside_a_message", fmt.Sprint(waits > 0))
 		}
 	} else if waits > 0 {
 		// only a violation if the conversation was actually fast; a loaded
